@@ -59,6 +59,14 @@ const char *hx_verif_dir (void) {
   return verif_dir;
 }
 
+static pid_t scratch_owner;
+static void cleanup_scratch (void) {
+  if (scratch[0] && getpid () == scratch_owner) {
+    char cmd[PATH_MAX + 16];
+    snprintf (cmd, sizeof cmd, "rm -rf '%s'", scratch);
+    if (system (cmd)) {}
+  }
+}
 const char *hx_scratch_dir (void) {
   if (!scratch[0]) {
     char b[PATH_MAX];
@@ -66,6 +74,8 @@ const char *hx_scratch_dir (void) {
     mkdir (b, 0755);
     snprintf (scratch, sizeof scratch, "%s/build/scratch/p%d", hx_verif_dir (), (int) getpid ());
     mkdir (scratch, 0755);
+    scratch_owner = getpid ();
+    atexit (cleanup_scratch);
   }
   return scratch;
 }
